@@ -8,6 +8,7 @@ from .. import bits, fields
 from ..core import call_attr, calls_in, const, dotted, is_const, kwarg, norm, slice_parts, text, walk_local
 
 EXPLANATION = [
+    'C01.return-parameters-fields: every HCI return-parameters dataclass that declares fields of its own gets a wire layout: passed to sync_command(...) or given `fields` explicitly.',
     'C01.walrus: no assignment expression in bumble.hci captures the result of a comparison instead of the compared value (`x := d.get(k) is not None`).',
     'C01.zip-star: no parser in bumble.hci unpacks `zip(*rows)`: list-valued packets keep their zero-entry form (and their columns stay lists).',
     'C01.wire-fields-init: every dataclass field that carries wire metadata is a constructor argument (no init=False): parsers build objects with cls(**fields) and serialisers read the instance dict.',
@@ -651,7 +652,33 @@ def walrus_rule(ctx):
     walrus_compare(ctx, 'C01.walrus', ['bumble.hci'])
 
 
+def return_parameters_fields(ctx):
+    """A return-parameters dataclass gets its wire layout (`fields`) when it is passed to HCI_SyncCommand.sync_command();
+    one that declares fields of its own and is never passed there must declare the layout itself (class attribute or a
+    module-level `X.fields = ...`), or it silently serialises and parses as its base class."""
+    R, p = ctx.r, ctx.p
+    rule = 'C01.return-parameters-fields'
+    registered, explicit = set(), set()
+    for mn, m in p.modules.items():
+        for c in ast.walk(m.tree):
+            if isinstance(c, ast.Call) and (dotted(c.func) or '').endswith('sync_command'):
+                registered |= {norm(a).split('.')[-1] for a in c.args}
+            if isinstance(c, ast.Assign) and isinstance(c.targets[0], ast.Attribute) and c.targets[0].attr == 'fields' and isinstance(c.targets[0].value, ast.Name):
+                explicit.add(c.targets[0].value.id)
+    n = 0
+    for cn, ci in sorted(p.classes.items()):
+        if not any(x.qual == 'bumble.hci.HCI_ReturnParameters' for x in p.mro(cn)[1:]):
+            continue
+        n += 1
+        if not ci.annots:
+            continue
+        ok = ci.name in registered or ci.name in explicit or 'fields' in ci.assigns
+        R.check(ok, rule, cn, 'layout declared (sync_command / explicit fields)', f'{ci.name} declares {sorted(ci.annots)} but never gets a `fields` layout of its own: it inherits its base class\'s, so these values are dropped from the bytes and parsing it raises for the missing argument', p.loc(ci.node))
+    R.check(n >= 60 and len(registered) >= 100, rule, 'bumble.hci | return parameter classes', f'{n} classes, {len(registered)} registered through sync_command', f'only {n} classes / {len(registered)} registrations found')
+
+
 RULES = [
+    ('C01.return-parameters-fields', return_parameters_fields),
     ('C01.walrus', walrus_rule),
     ('C01.zip-star', zip_star_rule),
     ('C01.wire-fields-init', wire_fields_init_rule),
